@@ -24,6 +24,7 @@ def run(ctx):
     render.order(ctx)
     render.duplicate_cel(ctx)
     render.gate(ctx)
+    render.ancestor_walk(ctx)
     render.opacity_and_mode(ctx)
     render.blend_table(ctx)
     render.operands_and_offset(ctx)
